@@ -1,19 +1,24 @@
 #!/bin/bash
-# tools/seeded_run.sh <seeded-id-dir> <check ids...>   — apply the seeded change to /repo, run the checks, undo.
-# Only run when nothing else is building against /repo.
+# tools/seeded_run.sh <seeded-dir> <check ids...>
+# Runs the quick checks against a scratch worktree of /repo HEAD with the seeded change applied (MECH_REPO override:
+# the harness is rebuilt with its /repo paths rewritten into .cache/alt); /repo itself is not touched.
+# The evidence files of the unchanged tree are saved and restored.
 set -u
-D=$1; shift
+D=$(realpath $1); shift
+WT=/tmp/seed-wt
 cd /verif
-if ! git -C /repo diff --quiet; then echo "/repo is dirty"; exit 2; fi
-git -C /repo apply $D/patch.diff || exit 2
+if [ ! -d $WT ]; then git -C /repo worktree add --detach $WT HEAD >/dev/null 2>&1 || exit 2; fi
+git -C $WT checkout -q --detach $(git -C /repo rev-parse HEAD); git -C $WT checkout -q -- .
+git -C $WT apply $D/patch.diff || { echo "patch does not apply"; exit 2; }
 RES=""
 for c in "$@"; do
-  ./check $c --tier quick > $D/run_$c.log 2>&1; rc=$?
+  cp evidence/$c.json /tmp/evidence_$c.json.bak 2>/dev/null
+  MECH_REPO=$WT ./check $c --tier quick > $D/run_$c.log 2>&1; rc=$?
   V=$(grep -c "^VIOLATION" $D/run_$c.log)
   RES="$RES $c:rc=$rc:violations=$V"
-  grep "^VIOLATION" $D/run_$c.log | head -3
+  grep "^VIOLATION" $D/run_$c.log | head -2
+  for r in $(grep "^VIOLATION" $D/run_$c.log | sed 's/.*replay=\([^ ]*\).*/\1/' | head -1); do cp $r $D/caught_by_$c.json 2>/dev/null; done
+  cp /tmp/evidence_$c.json.bak evidence/$c.json 2>/dev/null
 done
-git -C /repo checkout -- .
+git -C $WT checkout -q -- .
 echo "$RES" | tee $D/run_summary.txt
-# restore the evidence of the unchanged tree
-for c in "$@"; do ./check $c --tier quick > /dev/null 2>&1; done
